@@ -327,6 +327,38 @@ def register(gen, T):
                    "real name the handler reports; the once-set holds ids; contents come from the source manager -/\n")
         out.append("def fileIdentity : List String := " + T.lean_list(lean_str(x) for x in identity) + "\n\n")
 
+        # --- wave 5: the line state machine and the arms that reject a directive -------------------------------
+        pif_body = fn_body(pre, "preprocess_included_file")
+        _, ls_arms, _ = first_match(pif_body, r'\(&next\.0, &command_state\)')
+        line_arms = []
+        for pats, guard, result in match_arms(ls_arms):
+            head = " | ".join(pats) + (" if " + normws(guard) if guard is not None else "")
+            res = normws(result)
+            # the two short arms in full (a line end outside a directive / every other token goes to active_tokens)
+            line_arms.append(head + (" => " + res if len(res) < 90 else ""))
+        out.append("/-- the arms of `match (&next.0, &command_state)` in `preprocess_included_file` (pattern and guard; the short arms\n"
+                   "in full): `Line` / `stepLine` of the model read a file as the lines this machine delimits -/\n")
+        out.append("def lineStateArms : List String :=\n  " + T.lean_list(lean_str(x) for x in line_arms) + "\n\n")
+        pcn = normws(fn_body(pre, "preprocess_command"))
+        m7 = re.search(r'let file_name = match command \{ (.*?) \};', pcn)
+        if not m7:
+            raise ExtractError("include arm: `let file_name = match command` not found")
+        out.append("/-- the operand of `#include`: one string literal or one header name (the same string is taken out of both),\n"
+                   "anything else is `InvalidInclude` -/\n")
+        out.append("def includeOperand : String := " + lean_str(m7.group(1)) + "\n\n")
+        rejecting = []
+        for pat in (r'(_ if skip => return Ok\(\(\)\), _ => return Err\(PreprocessError::UnknownCommand\(command_location\)\),) \};',
+                    r'"warning" => \{ Ok\(\(\)\) \} (_ => Err\(PreprocessError::UnknownPragma\(ext\.get_location\(\)\)\),) \}',
+                    r'\} (else \{ Err\(PreprocessError::UnknownPragma\( pragma_command\.first\(\)\.get_location\(\), \)\) \})',
+                    r'(_ if skip => Ok\(\(\)\), _ => Err\(PreprocessError::UnknownCommand\(command_location\)\),) \}$'):
+            m8 = re.search(pat, pcn)
+            if not m8:
+                raise ExtractError(f"preprocess_command: rejecting arm {pat!r} not found")
+            rejecting.append(m8.group(1))
+        out.append("/-- where `preprocess_command` rejects a directive whatever the state (`Line.rejected`): a line that does not begin\n"
+                   "with a name, a pragma with an unknown / missing name, an unknown directive name -/\n")
+        out.append("def rejectingArms : List String :=\n  " + T.lean_list(lean_str(x) for x in rejecting) + "\n\n")
+
         # the API define that contains a line end is rejected before Macro::parse (fix 3c81ed5)
         pif0 = normws(fn_body(pre, "preprocess_initial_file"))
         m6 = re.search(r'if (tokens\.iter\(\)\.any\(\|t\| t\.0 == Token::Endline\)) \{ return Err\(PreprocessError::InvalidDefine\('
